@@ -215,6 +215,9 @@ func init() {
 		"internal/race.WriteRange": extNop,
 		"internal/race.Errors":   func(fr *frame, a []value) value { return 0 },
 
+		"internal/abi.NoEscape":          func(fr *frame, a []value) value { return a[0] },
+		"(*strings.Builder).copyCheck":   extNop,
+
 		// ---- bytealg
 		"internal/bytealg.IndexByte":       extIndexByte,
 		"internal/bytealg.IndexByteString": extIndexByte,
